@@ -233,6 +233,29 @@ Theorem C18_pass_keeps_env :
 Proof. exact finish_script_pass. Qed.
 Print Assumptions C18_pass_keeps_env.
 
+(* success means Pass or Leak (exit 0 with a descendant still holding a captured pipe): the
+   variables of a script are kept iff its reported result is a success ... *)
+Theorem C18_env_kept_iff_success :
+  forall o r em, finish_script o = (r, em) ->
+                 ((exists m, em = Some m) <-> (r = RPass \/ r = RLeak)).
+Proof. exact finish_script_env_iff_pass_or_leak. Qed.
+Print Assumptions C18_env_kept_iff_success.
+
+Theorem C18_leaky_pass_keeps_env :
+  forall o m, o_result o = RLeak -> read_env o = Some m -> finish_script o = (RLeak, Some m).
+Proof. exact finish_script_leak. Qed.
+Print Assumptions C18_leaky_pass_keeps_env.
+
+(* ... and in a run a script that ran contributes its variables to the tests (C18_env_scope) iff
+   its result is Pass or Leak. *)
+Theorem C18_env_scope_successes :
+  forall D d0 defs rules sel outs ss,
+    In ss (run_scripts_ran D d0 defs rules sel outs) ->
+    ((exists m, In (ss, m) (run_data_of D d0 defs rules sel outs)) <->
+     (script_result outs ss = RPass \/ script_result outs ss = RLeak)).
+Proof. exact run_data_iff_success. Qed.
+Print Assumptions C18_env_scope_successes.
+
 Theorem C18_mini_dispatcher_obeys_laws : disp_laws mini_disp /\ disp_live mini_disp.
 Proof. exact (conj mini_laws mini_live). Qed.
 Print Assumptions C18_mini_dispatcher_obeys_laws.
@@ -307,6 +330,18 @@ Example C18_F5_unrepaired_witness :
   /\ finish_script (mkout RPass (Some [70;79;79;61;98;97;114;10]))
      = (RPass, Some [([70;79;79], [98;97;114])]).
 Proof. repeat split; vm_compute; reflexivity. Qed.
+
+(* a leaky pass: script 0 is classified Leak; the run goes on and the matched test t0 receives
+   its variables, the unmatched t1 does not *)
+Definition outs_leak : sid -> outcome := fun x =>
+  if x =? 0 then mkout RLeak (Some [65;61;49;10]) else mkout RPass (Some [75;61;50;10]).
+
+Example C18_leaky_pass_example :
+  snd (run mini_disp d_init [0; 1; 2] [rA; rB] [t0] outs_leak [t1; t0])
+  = [EvScriptStarted 0; EvScriptFinished 0 RLeak; EvScriptStarted 2; EvScriptFinished 2 RPass;
+     EvTestStarted t1 []; EvTestStarted t0 [([65], [49]); ([75], [50])]]
+  /\ d_exit mini_disp (fst (run mini_disp d_init [0; 1; 2] [rA; rB] [t0] outs_leak [t1; t0])) = 0%Z.
+Proof. split; vm_compute; reflexivity. Qed.
 
 Example C18_summarize_example :
   summarize_scripts 2 2 0 1 0 = 1 /\ summarize_scripts 2 1 0 0 0 = 2
